@@ -1,0 +1,12 @@
+//go:build verif
+
+package goja
+
+import "sync/atomic"
+
+// VerifC15State exposes the control state that property C15 (interrupts) constrains after an API call
+// has returned: the interrupt flag, the number of queued promise jobs, and the depths of the call and
+// try stacks.  Read-only; only meaningful while the runtime is idle.
+func VerifC15State(r *Runtime) (flag uint32, jobs int, callDepth int, tryDepth int) {
+	return atomic.LoadUint32(&r.vm.interrupted), len(r.jobQueue), len(r.vm.callStack), len(r.vm.tryStack)
+}
